@@ -519,18 +519,49 @@ def run(ctx, res):
         else:
             res.errors.append("%s accesses the interrupt controller's state (%s) but is not part of the analysed request / delivery paths: not decidable by this rule" % (key, sorted(touch[key])))
     res.floor("bodies touching the controller state", len(touch), 2)
-    # ---- (4) requesters
+    # ---- (4) requesters: the number passed is a constant in 1..=63 - directly, or through parameters of helper functions
+    # (followed to the helpers' callers); a computed number is not decided by this rule
     nreq = 0
+    requested = set()
+
+    def vector_values(key, operand, depth=4):
+        """set of (value or None, site) an operand can take: constants, or - for a parameter of the body - what the callers pass"""
+        b = facts.bodies[key]
+        if operand["k"] == "const":
+            v = operand["v"]
+            return [(int(v["int"]) if "int" in v else None, key)]
+        gg = cfgmod.Cfg(b)
+        out = []
+        for r in gg.roots(operand):
+            if r[0] == "const":
+                try:
+                    out.append((int(r[1]), key))
+                except (TypeError, ValueError):
+                    out.append((None, key))
+            elif r[0] == "place" and r[1].startswith("_") and r[1][1:].isdigit() and 1 <= int(r[1][1:]) <= b.get("argc", 0) and depth > 0:
+                pi = int(r[1][1:]) - 1
+                callers = [(k2, t2) for k2, b2 in facts.bodies.items() for bl2 in b2["blocks"] for t2 in [bl2["term"]] if t2["k"] == "call" and t2["callee"]["path"] == key]
+                if not callers:
+                    out.append((None, key))
+                for k2, t2 in callers:
+                    out.extend(vector_values(k2, t2["args"][pi], depth - 1))
+            else:
+                out.append((None, key))
+        return out or [(None, key)]
     for key, b in facts.bodies.items():
         for bl in b["blocks"]:
             t = bl["term"]
             if t["k"] == "call" and t["callee"]["path"] == k_req:
                 nreq += 1
-                a = t["args"][1]
-                v = int(a["v"]["int"]) if a["k"] == "const" and "int" in a["v"] else None
-                okk = v is not None and 1 <= v <= 63
-                res.ob(okk)
-                if not okk:
-                    res.finding("requester|%s|vector" % key.split("::")[-1], "%s requests a vector that is not a constant in 1..=63 (%r)" % (key, v))
+                vals = vector_values(key, t["args"][1])
+                requested.update(v for v, _ in vals if v is not None)
+                bad = sorted(set(v for v, _ in vals if v is not None and not (1 <= v <= 63)))
+                unknown = [site for v, site in vals if v is None]
+                res.ob(not bad and not unknown)
+                if bad:
+                    res.finding("requester|%s|vector" % key.split("::")[-1], "%s requests vector number(s) %r outside 1..=63" % (key, bad))
+                elif unknown:
+                    res.errors.append("%s requests a vector number that is computed in %s: not decidable by this rule" % (key, unknown[0]))
     res.inventory["request_sites"] = nreq
-    res.floor("request_interrupt call sites", nreq, 3)
+    res.inventory["requested_vectors"] = sorted(requested)
+    res.floor("distinct vector numbers requested by peripherals", len(requested), 3)
